@@ -1534,3 +1534,13 @@ def evaluator_for(cp, hooks=None, max_depth: int = 8) -> Evaluator:
             mc[st.targets[0].id] = st.value            # (anything else, e.g. a sentinel `object()`, stays an opaque named object)
     ev.module_consts = mc
     return ev
+
+
+def evaluator_for_class(ci, hooks=None, max_depth: int = 8) -> Evaluator:
+    """an evaluator for the methods of a class of the repository (a ClassInfo of the source model), with its class-level and
+    module-level constants"""
+    from types import SimpleNamespace
+    ev = evaluator_for(SimpleNamespace(members={n: m.node for n, m in ci.methods.items()}, cls_node=ci.node, module_tree=ci.module.tree),
+                       hooks=hooks, max_depth=max_depth)
+    ev.functions = {st.name: st for st in ci.module.tree.body if isinstance(st, ast.FunctionDef)}
+    return ev
